@@ -18,7 +18,7 @@ ROOT = os.path.dirname(os.path.dirname(os.path.abspath(__file__)))
 OUT = os.environ.get("VERIF_OUT") or ROOT  # scratch runs against a worktree write elsewhere
 EVIDENCE_DIR = os.path.join(OUT, "evidence")
 REPLAY_DIR = os.path.join(OUT, "replays")
-FINDINGS_FILE = os.path.join(ROOT, "known_findings.json")
+FINDINGS_FILE = os.environ.get("VERIF_FINDINGS") or os.path.join(ROOT, "known_findings.json")  # override: scratch experiments only
 
 MAX_SAMPLES = 6
 MAX_REPLAYS_PER_SIG = 1
